@@ -389,6 +389,9 @@ class VRLock:
         self._owner = None
         self._count = 0
 
+    def locked(self):
+        return self._owner is not None
+
     def acquire(self, blocking=True, timeout=-1):
         s = _sched()
         me = s.me()
